@@ -25,6 +25,7 @@ ANCHORS = ["src/metador_core/schema/partial.py", "src/metador_core/harvester/__i
 ASSUMPTIONS = [
     "equality of partials is structural (non-None public field values, recursively), not class identity",
     "without allow_overwrite two provided atomic values conflict even when equal (the code's documented rule)",
+    "nested dict inputs carry no fields unknown to the declared class; values of a subclass enter nested positions as objects (via to_partial/cast of complete objects), as harvesters produce them",
     "associativity is only checked for triples in which every nested position holds model values of ONE inheritance chain (no unrelated classes, no mix of model and opaque values): the property's chain condition",
 ]
 WORKERS = {"quick": 12, "thorough": 16}
@@ -42,7 +43,9 @@ def struct(v, with_cls=False):
     """Structural value: non-None public fields, recursively (class identity only kept on request)."""
     from pydantic import BaseModel
     if isinstance(v, BaseModel):
-        consts = getattr(v, "__constants__", {}) or {}
+        from vlib.schemagen import ALL_CONSTS
+        consts = set(getattr(v, "__constants__", {}) or {}) | ALL_CONSTS  # constants are not provided values (also not those of a
+        # subclass that ended up as extra fields of a parent-class partial)
         out = {"__model__": {k: struct(x, with_cls) for k, x in v.__dict__.items() if not k.startswith("_") and x is not None and k not in consts}}
         if with_cls:
             src = getattr(type(v), "__partial_src__", type(v))
@@ -59,7 +62,11 @@ def struct(v, with_cls=False):
 
 
 def strip(s):
+    """Comparison form: class ids dropped and model wrappers flattened (after a cross-class cast the fields that only the
+    subclass declares live on as extra fields of the parent-class partial, where a nested model is a plain dict)."""
     if isinstance(s, dict):
+        if "__model__" in s:
+            return strip(s["__model__"])
         return {k: strip(v) for k, v in s.items() if k != "__cls__"}
     if isinstance(s, list):
         return [strip(x) for x in s]
@@ -96,6 +103,19 @@ def spec_merge(a, b, allow_overwrite):
     if not allow_overwrite:
         raise Conflict()
     return b
+
+
+def deep_diff(x, y, path=""):
+    """Path and values of the first difference between two comparison forms."""
+    if isinstance(x, dict) and isinstance(y, dict):
+        for k in list(x) + [k for k in y if k not in x]:
+            if x.get(k) != y.get(k):
+                return deep_diff(x.get(k), y.get(k), f"{path}.{k}")
+    if isinstance(x, list) and isinstance(y, list) and len(x) == len(y):
+        for i, (u, v) in enumerate(zip(x, y)):
+            if u != v:
+                return deep_diff(u, v, f"{path}[{i}]")
+    return f"{path or '.'}: {str(x)[:160]!r} vs {str(y)[:160]!r}"
 
 
 _contract = {"installed": False, "evals": 0, "violations": []}
@@ -142,16 +162,32 @@ def do_merge(a, b, allow_overwrite):
         return ("bad", e)
 
 
+def has_objects(v):
+    from pydantic import BaseModel
+    if isinstance(v, BaseModel):
+        return True
+    if isinstance(v, dict):
+        return any(has_objects(x) for x in v.values())
+    if isinstance(v, (list, tuple)):
+        return any(has_objects(x) for x in v)
+    return False
+
+
 def variants(P, S, d, rng, tmp, acc):
     """The same content as a partial, obtained in one of the ways the library produces partials."""
     import yaml
     how = rng.choice(["parse_obj", "json", "yaml", "to_partial", "cast", "loader"])
+    if has_objects(d):
+        # subclass OBJECTS at parent-typed positions only survive object-preserving routes; serialising them would turn the
+        # subclass's fields into unvalidated extra fields of the parent class (raw JSON values), which is a different input
+        how = rng.choice(["to_partial", "cast", "to_partial", "parse_obj"])
     if how == "parse_obj":
         return how, P.parse_obj(d)
+    from vlib.schemagen import jsonable
     if how == "json":
-        return how, P.parse_raw(json.dumps(d, default=str))
+        return how, P.parse_raw(json.dumps(jsonable(d), default=str))
     if how == "yaml":
-        return how, P.parse_raw(yaml.safe_dump(json.loads(json.dumps(d, default=str))))
+        return how, P.parse_raw(yaml.safe_dump(json.loads(json.dumps(jsonable(d), default=str))))
     if how in ("to_partial", "cast"):
         try:
             full = S.parse_obj(d)
@@ -160,7 +196,7 @@ def variants(P, S, d, rng, tmp, acc):
             return "parse_obj", P.parse_obj(d)
     from metador_core.harvester import harvest, metadata_loader
     p = tmp / f"side{rng.randrange(1 << 30)}.yaml"
-    p.write_text(yaml.safe_dump(json.loads(json.dumps(d, default=str))))
+    p.write_text(yaml.safe_dump(json.loads(json.dumps(jsonable(d), default=str))))
     return how, harvest(S, [metadata_loader(S)(filepath=p)], return_partial=True)
 
 
@@ -217,6 +253,13 @@ def check_triple(acc, S, P, ds, rng, tmp):
         hows.append(how)
         acc.count(f"partials_by.{how}")
     a, b, c = parts
+    for x in parts:
+        for fname, fv in x.__dict__.items():
+            f = S.__fields__.get(fname)
+            if f is not None and hasattr(fv, "__fields__") and isinstance(f.type_, type):
+                src = getattr(type(fv), "__partial_src__", type(fv))
+                if src is not f.type_ and issubclass(src, f.type_):
+                    acc.count("nested_subclass_positions")
     sa, sb, sc = (struct(x, True) for x in parts)
     _unrelated[0] = 0
     e = P()
@@ -234,7 +277,7 @@ def check_triple(acc, S, P, ds, rng, tmp):
         acc.count("law.identity")
         if r[0] != "ok":
             return bad(f"identity-{side}-raised", f"merge with the empty partial raised {type(r[1]).__name__}: {str(r[1])[:120]}")
-        if struct(r[1]) != strip(sa):
+        if strip(struct(r[1])) != strip(sa):
             lost = [k for k in sa["__model__"] if k not in struct(r[1])["__model__"]]
             return bad(f"identity-{side}", f"e.p != p: fields {lost or 'changed'} (values {[sa['__model__'][k] for k in lost][:3]})")
     # binary merge vs specification, both overwrite modes
@@ -256,10 +299,9 @@ def check_triple(acc, S, P, ds, rng, tmp):
             if r[0] != "ok":
                 return bad("merge-raised", f"merge raised {type(r[1]).__name__} although nothing conflicts (allow_overwrite={ow}): {str(r[1])[:120]}")
             want = strip(want)
-            if struct(r[1]) != want:
-                got = struct(r[1])["__model__"]
-                k = next(k for k in set(got) | set(want["__model__"]) if got.get(k) != want["__model__"].get(k))
-                return bad("merge-result", f"field {k}: got {got.get(k)!r}, specification {want['__model__'].get(k)!r} (allow_overwrite={ow})")
+            got = strip(struct(r[1]))
+            if got != want:
+                return bad("merge-result", f"got vs specification differ at {deep_diff(got, want)} (allow_overwrite={ow})")
     # associativity (same outcome class and same structure); claimed only under the chain condition
     try:
         spec_merge(spec_merge(sa, sb, True), sc, True)
@@ -280,16 +322,15 @@ def check_triple(acc, S, P, ds, rng, tmp):
             return bad(f"unexpected-exception:{type(x[1]).__name__}", f"{type(x[1]).__name__}: {str(x[1])[:150]}")
         if left[0] != right[0]:
             return bad("associativity-outcome", f"(a.b).c {left[0]} but a.(b.c) {right[0]} (allow_overwrite={ow})")
-        if left[0] == "ok" and struct(left[1]) != struct(right[1]):
-            gl, gr = struct(left[1])["__model__"], struct(right[1])["__model__"]
-            ks = [k for k in set(gl) | set(gr) if gl.get(k) != gr.get(k)]
-            return bad("associativity", f"(a.b).c != a.(b.c) (allow_overwrite={ow}) at field(s) {ks}: {str(gl.get(ks[0]))[:200]} vs {str(gr.get(ks[0]))[:200]}")
+        if left[0] == "ok" and strip(struct(left[1])) != strip(struct(right[1])):
+            gl, gr = strip(struct(left[1])), strip(struct(right[1]))
+            return bad("associativity", f"(a.b).c != a.(b.c) (allow_overwrite={ow}) at {deep_diff(gl, gr)}")
     # n-ary merge = fold
     acc.count("law.fold")
     try:
         m = P.merge(a, b, c, allow_overwrite=True)
-        if chain_ok and struct(m) != strip(spec_merge(spec_merge(sa, sb, True), sc, True)):
-            return bad("nary-merge", "merge(a,b,c) is not the left fold of merge_with")
+        if chain_ok and strip(struct(m)) != strip(spec_merge(spec_merge(sa, sb, True), sc, True)):
+            return bad("nary-merge", "merge(a,b,c) is not the left fold of merge_with: " + deep_diff(strip(struct(m)), strip(spec_merge(spec_merge(sa, sb, True), sc, True))))
     except Exception as ex:
         return bad(f"unexpected-exception:{type(ex).__name__}", f"merge(a,b,c) raised {type(ex).__name__}: {str(ex)[:150]}")
     return None
@@ -328,11 +369,11 @@ def run_class(acc, S, rng, ntriples, tmp, G, origin):
             return
         r = check_triple(acc, S, P, ds, rng, tmp)
         if r:
-            acc.violation(f"{r[0]}:{origin}", r[1], {"class": S.__name__, "origin": origin, "inputs": json.loads(json.dumps(ds, default=str)), "unit": _unit[0]})
+            acc.violation(f"{r[0]}:{origin}", r[1], {"class": S.__name__, "origin": origin, "inputs": json.loads(json.dumps(G.jsonable(ds), default=str)), "unit": _unit[0]})
             return
         if acc.evaluations % 500 == 1:
             acc.sample({"class": S.__name__, "fields": {k: str(f.outer_type_)[:50] for k, f in list(S.__fields__.items())[:6]},
-                        "triple": json.loads(json.dumps(ds, default=str))})
+                        "triple": json.loads(json.dumps(G.jsonable(ds), default=str))})
 
 
 def harvester_case(acc, rng, tmp):
@@ -384,6 +425,9 @@ def run_unit(u, acc):
             for _ in range(u["families"]):
                 for S in G.gen_family(rng, 4, tag="M"):
                     run_class(acc, S, rng, u["triples"], tmp, G, "generated")
+            for _ in range(2):  # inheritance chains at nested positions (subclass objects where the parent class is declared)
+                fam = G.gen_chain_family(rng, tag="H")
+                run_class(acc, fam[-1], rng, u["triples"] * 2, tmp, G, "generated-chain")
         else:
             from metador_core.plugins import schemas
             for ref in schemas.keys():
@@ -401,7 +445,7 @@ def run_unit(u, acc):
 def inconclusive(cov):
     c = cov["counters"]
     return [f"monitor counter {k} is zero" for k in ("law.identity", "law.binary", "law.associativity", "law.to_from_partial", "contract_evaluations",
-                                                  "harvest_pipelines", "partials_by.yaml", "partials_by.to_partial", "partials_by.loader") if not c.get(k)]
+                                                  "harvest_pipelines", "partials_by.yaml", "partials_by.to_partial", "partials_by.loader", "classes.generated-chain", "nested_subclass_positions") if not c.get(k)]
 
 
 def replay(case, acc):
